@@ -1010,12 +1010,26 @@ def run(ctx: Ctx) -> None:
     for c in load_corpus():
         sh = T.build_shape(next(s for s in T.ALL_SPECS if s[0] == c['shape']))
         case = Case(c['type'], bytes.fromhex(c['body']), 'corpus', c.get('label', c['_file']), c.get('valid'))
+        if c.get('fast'):
+            o = T.read_message(sh, case.ty, case.body, fast=True)
+            ctx.evaluations += 1
+            ctx.count(f'fast-path:{o.key()}')
+            if o.cls in ('raised', 'recursion', 'timeout'):
+                judge.fail(sh, Case(case.ty, case.body, 'fast-path', case.label, True), o.cls, 'raised something that is not a NOTIFICATION — in the peer loop, on the undecoded fast path of read_message (adj-rib-in false, no API): the session is reset with no NOTIFICATION', o, o.stage + ':fast-path')
+            continue
         o1, o2 = judge.run_case(sh, case)
         want = c.get('expect')
-        if want and o2.canon() != want and want != 'any':
-            ctx.notes.append(f'corpus {c["_file"]}: read_message gives {o2.canon()} (recorded: {want})')
+        if want and (o1.canon() != want or o2.canon() != want):
+            # a pinned benign case no longer behaves as recorded: for 'decoded' pins that is a refusal of a valid message
+            if want == 'decoded' and (o1.cls == 'notify' or o2.cls == 'notify'):
+                o = o1 if o1.cls == 'notify' else o2
+                judge.fail(sh, case, 'valid-refused', 'valid message refused (pinned corpus case)', o, 'unpack' if o is o1 else 'read_message', {'label': case.label})
+            else:
+                ctx.notes.append(f'corpus {c["_file"]}: unpack {o1.canon()} / read_message {o2.canon()} (recorded: {want})')
     for sh in shapes:
         judge.flush(sh)
+    for name in list(judge.pending):
+        judge.flush(T.build_shape(next(s for s in T.ALL_SPECS if s[0] == name)))
 
     n_enc = 40 if quick else 1500
     n_other = 8 if quick else 150
@@ -1084,7 +1098,9 @@ def run(ctx: Ctx) -> None:
 
 def replay(path: str) -> int:
     data = json.loads(open(path).read())
-    rp = data['replay']
+    rp = data.get('replay', data)  # a replay file of a violation, or a corpus file
+    if rp.get('fast'):
+        rp['level'] = 'handler:fast-path'
     sh = T.build_shape(next(s for s in T.ALL_SPECS if s[0] == rp['shape']))
     body = bytes.fromhex(rp['body'])
     o1 = T.unpack_forced(sh, rp['type'], body)
@@ -1098,4 +1114,5 @@ def replay(path: str) -> int:
         except common.Infra as e:
             print('reference unavailable:', e)
     bad = any(o.cls in ('raised', 'recursion', 'timeout') for o in (o1, o2))
-    return 1 if bad or 'refused' in data.get('what', '') and (o1.cls == 'notify' or o2.cls == 'notify') else 0
+    refused = o1.cls == 'notify' or o2.cls == 'notify'
+    return 1 if bad or (refused and ('refused' in data.get('what', '') or data.get('valid') is True)) else 0
